@@ -300,12 +300,13 @@ class Cache:
             if self.group_by or self.is_summarized:
                 return "join with a grouped table"
 
+            # Deselected columns count, too: they can still be referenced after the join.
             if (node.how == "full" or (node.child not in self.derived_from and node.how == "left")) and any(
-                types.is_const(self.cols[uid].dtype()) for uid in self.uuid_to_name.keys()
+                types.is_const(col.dtype()) for col in self.cols.values()
             ):
                 return "left / full join with a table containing a constant column"
 
-            if any(self.cols[uid].ftype() == Ftype.WINDOW for uid in self.uuid_to_name.keys()):
+            if any(col.ftype() == Ftype.WINDOW for col in self.cols.values()):
                 return "join with a table containing window function expression"
 
             if any(
